@@ -152,6 +152,14 @@ Theorem clone_chain_fresh : forall (idxs : list (option N)) (s : store) (a : age
 Proof. exact clone_chain_fresh_lemma. Qed.
 Print Assumptions clone_chain_fresh.
 
+(* size of the population a tournament returns: one copy per scripted tournament, one more with elitism, plus the elite
+   object (together with select_fresh and sep_preserved: that many pairwise disjoint, entirely new individuals) *)
+Theorem select_length : forall (e : nat) (ws : list nat) (el : bool) (w : world),
+  (e < length (w_pop w))%nat -> Forall (fun i => (i < length (w_pop w))%nat) ws ->
+  length (w_pop (select e ws el w)) = (length ws + (if el then 1 else 0) + 1)%nat.
+Proof. exact select_length_lemma. Qed.
+Print Assumptions select_length.
+
 (* REFUTED — the pinned behaviour (optimizer.load_state_dict of the parent's state dict without a deep
    copy) breaks separation: parent and copy share the optimizer state tensors *)
 Theorem clone_aliasing_refuted :
